@@ -21,6 +21,8 @@ const (
 	MTOCILayer      = "application/vnd.oci.image.layer.v1.tar"
 	MTOCILayerGzip  = "application/vnd.oci.image.layer.v1.tar+gzip"
 	MTOCIEmpty      = "application/vnd.oci.empty.v1+json"
+	MTDocker1       = "application/vnd.docker.distribution.manifest.v1+json"
+	MTOCIArtifact   = "application/vnd.oci.artifact.manifest.v1+json"
 	MTDockerMan     = "application/vnd.docker.distribution.manifest.v2+json"
 	MTDockerList    = "application/vnd.docker.distribution.manifest.list.v2+json"
 	MTDockerConfig  = "application/vnd.docker.container.image.v1+json"
@@ -252,6 +254,22 @@ func Build(name string) *Graph {
 		a := g.SimpleImage(false, "amd64", "with-blob-entry")
 		bl := g.Blob(MTOCILayer, "blob-entry")
 		g.Top = g.IndexP(false, []PlatDesc{{a, amd}, {bl, nil}}, nil).Digest
+	case "G12": // Docker schema 1 (unsigned): fsLayers (one listed twice), no config descriptor
+		l0 := g.Blob(MTDockerLayerGz, "s1-layer-0")
+		l1 := g.Blob(MTDockerLayerGz, "s1-layer-1")
+		doc := map[string]any{"schemaVersion": 1, "name": "proj/s1", "tag": "v1", "architecture": "amd64",
+			"fsLayers": []map[string]string{{"blobSum": l0.Digest}, {"blobSum": l1.Digest}, {"blobSum": l0.Digest}},
+			"history":  []map[string]string{{"v1Compatibility": `{"id":"a"}`}, {"v1Compatibility": `{"id":"b"}`}, {"v1Compatibility": `{"id":"c"}`}}}
+		g.Top = g.addManifest(MTDocker1, doc).Digest
+	case "G16": // OCI artifact manifest (blobs, no config): the withdrawn artifact media type
+		b0 := g.Blob("application/vnd.example.data", "art-blob-0")
+		b1 := g.Blob("application/vnd.example.data", "art-blob-1")
+		doc := map[string]any{"mediaType": MTOCIArtifact, "artifactType": "application/vnd.example.art", "blobs": []modelreg.Desc{b0, b1}}
+		g.Top = g.addManifest(MTOCIArtifact, doc).Digest
+	case "G22": // index whose second entry has a media type the client does not know: a manifest-like JSON document
+		a := g.SimpleImage(false, "amd64", "with-unknown-entry")
+		u := g.Blob("application/vnd.example.unknown.v1+json", `{"not":"a manifest"}`)
+		g.Top = g.IndexP(false, []PlatDesc{{a, amd}, {u, nil}}, nil).Digest
 	case "G13": // image + two referrers + referrer-of-referrer
 		img := g.SimpleImage(false, "amd64", "subj-layer")
 		r1 := g.Artifact("application/vnd.example.sig", "sig-1", &img, map[string]string{"n": "1"})
@@ -303,7 +321,7 @@ func Build(name string) *Graph {
 	return g
 }
 
-var All = []string{"G1", "G2", "G3", "G4", "G5", "G6", "G7", "G8", "G9", "G10", "G11", "G13", "G14", "G15", "G17", "G18", "G19", "G20", "G21", "G1-512", "G3-512"}
+var All = []string{"G1", "G2", "G3", "G4", "G5", "G6", "G7", "G8", "G9", "G10", "G11", "G12", "G13", "G14", "G15", "G16", "G17", "G18", "G19", "G20", "G21", "G22", "G1-512", "G3-512"}
 
 // AllDigests returns every digest of the graph (manifests and hosted blobs), sorted.
 func (g *Graph) AllDigests() []string {
